@@ -93,7 +93,27 @@ NETS = {
     "A": [([-1], [1]), ([-1, 0], [2, 1]), ([-1, 0], [1, 3]), ([-1], [2])],  # comps per cell 1,3,4,2
     "B": [([-1], [2]), ([-1], [1]), ([-1, 0], [1, 3]), ([-1, 0], [2, 1]), ([-1], [1])],  # 2,1,4,3,1
     "C": [([-1, 0], [1, 2]), ([-1], [1]), ([-1], [2])],  # 3,1,2
+    # a dozen (mostly one-compartment) cells: cell indices beyond 8 and populations that straddle 8, where the iteration order of hash
+    # containers of small ints stops being ascending (seeded change S94); the RNG trees stay small because most cells offer one choice
+    "D": [([-1], [1]), ([-1], [1]), ([-1], [2]), ([-1], [1]), ([-1], [1]), ([-1], [1]), ([-1], [1]), ([-1], [2]), ([-1], [1]), ([-1], [1]),
+          ([-1], [1]), ([-1], [1])],
 }
+WIDE = [([0, 1, 2, 3], [6, 7, 8, 9]), ([10, 3], [7, 8]), ([1], [2, 9, 11]), ([9, 8, 7], [11, 0, 8])]
+
+
+def _wide_matrices(npre, npost):
+    """A few structured matrices (not all 2^(npre*npost)): cyclic shift, identity-like, full, one off-diagonal entry."""
+    out = []
+    cyc = [[int((j - i) % npost == 1 % npost) for j in range(npost)] for i in range(npre)]
+    ident = [[int(i == j) for j in range(npost)] for i in range(npre)]
+    full = [[1] * npost for _ in range(npre)]
+    one = [[int(i == npre - 1 and j == 0) for j in range(npost)] for i in range(npre)]
+    anti = [[int(i + j == npost - 1) for j in range(npost)] for i in range(npre)]
+    for m in (cyc, ident, full, one, anti):
+        flat = [x for row in m for x in row]
+        if flat not in out:
+            out.append(flat)
+    return out
 SYNS = ["IonotropicSynapse", "TestSynapse"]
 # edges that exist before the call: (pre cell, post cell, "same"/"other" synapse type than the call's), made with jx.connect
 PRIORS = {
@@ -172,7 +192,7 @@ TIER = {
         "cap_dev2": {"fully": 100, "sparse": 40},
         "policies": {"fully": ["first", "cycle"], "sparse": ["cycle"]},
         # matrices: (shape size r*c up to, cap_complete, max_dev beyond the cap, policies)
-        "matrix_rule": [(4, 100, 2, ["first", "last"]), (6, 8, 1, ["first"]), (9, 1, 0, ["cycle"])],
+        "matrix_rule": [(4, 100, 2, ["first", "last"]), (6, 8, 1, ["first"]), (9, 1, 0, ["cycle"]), (16, 64, 1, ["first", "cycle"])],
         "p1_defaults_only_from": 6,
         "item": 6.0,
         "forward_seeds": [0, 1],
@@ -182,7 +202,7 @@ TIER = {
         "cap_dev2": {"fully": 400, "sparse": 60},
         "policies": {"fully": ["first", "last", "cycle"], "sparse": ["first", "cycle"]},
         "matrix_rule": [(4, 2000, 2, ["first", "last", "cycle"]), (6, 600, 2, ["first", "last", "cycle"]),
-                        (9, 8, 1, ["cycle"])],
+                        (9, 8, 1, ["cycle"]), (16, 256, 1, ["first", "cycle"])],
         "p1_defaults_only_from": 99,
         "item": 30.0,
         "forward_seeds": [0, 1, 2, 3, 4, 5],
@@ -792,6 +812,15 @@ def scenarios(tier):
         for net, pre, post in mpops if vi == 0 else MATRIX_POPS["quick"]:
             for bits in itertools.product([0, 1], repeat=len(pre) * len(post)):
                 scns.append(_scn(net, prior, syn, "matrix", pre, post, view, matrix=list(bits)))
+    # wide network D: populations with cell indices around and beyond 8
+    for pre, post in WIDE:
+        scns.append(_scn("D", "none", "IonotropicSynapse", "fully", pre, post, "cell"))
+        scns.append(_scn("D", "same", "TestSynapse", "fully", pre, post, "select"))
+        for bits in _wide_matrices(len(pre), len(post)):
+            scns.append(_scn("D", "same", "TestSynapse", "matrix", pre, post, "select", matrix=bits))
+            scns.append(_scn("D", "none", "IonotropicSynapse", "matrix", pre, post, "cell", matrix=bits))
+        if len(pre) * len(post) <= 4:
+            scns.append(_scn("D", "other", "TestSynapse", "sparse", pre, post, "cell", p=0.5))
     # no duplicates
     seen, out = set(), []
     for s in scns:
